@@ -90,6 +90,7 @@ type FuncGen struct {
 	callsExternalUnmodelled map[string]bool
 	order []*ssa.BasicBlock
 	heapSeen map[string]bool
+	siteOrd map[*ssa.Call]int
 	logCalls map[*ssa.Call]*logInfo
 	logList []*logInfo
 	heapQueue [][2]string
@@ -1032,7 +1033,7 @@ func (fg *FuncGen) loopHead(li *loopInfo, fwd []*ssa.BasicBlock, in string, rnam
 			fg.emit("(assert (>= %s %s))", sym, before)
 			continue
 		}
-		if strings.HasPrefix(f, "IT_") || strings.HasPrefix(f, "LOG_") {
+		if strings.HasPrefix(f, "IT_") || strings.HasPrefix(f, "LOG_") || strings.HasPrefix(f, "G_") {
 			continue
 		}
 		if !assigned[f] && strings.HasPrefix(fg.g.families[f], "(Array Int") {
@@ -1301,7 +1302,26 @@ func (g *Gen) assignFamilies(a string, fn *ssa.Function) []string {
 	return nil
 }
 
-func (fg *FuncGen) assumeTypeInvsForParams() {}
+// assumeTypeInvsForParams: the fields of struct objects passed by pointer hold well-formed Go values.
+func (fg *FuncGen) assumeTypeInvsForParams() {
+	for _, p := range fg.fn.Params {
+		pt, ok := p.Type().Underlying().(*types.Pointer)
+		if !ok {
+			continue
+		}
+		st, ok := pt.Elem().Underlying().(*types.Struct)
+		if !ok || fg.g.SortOf(pt.Elem()) == "Dec" {
+			continue
+		}
+		ref := fg.val[p][0].S
+		for i := 0; i < st.NumFields(); i++ {
+			fam := fg.g.FieldFamily(pt.Elem(), i)
+			if w := fg.g.WF(st.Field(i).Type(), "(select "+fam+"!0 "+ref+")"); w != "" {
+				fg.emit("(assert (=> (> %s 0) %s))", ref, w)
+			}
+		}
+	}
+}
 
 // emitDef introduces a named constant equal to a term (declare + assert rather than define-fun:
 // solvers expand define-fun macros textually, which explodes on long merge chains).
